@@ -10,8 +10,10 @@ extern crate rustc_lexer;
 extern crate rustc_parse;
 extern crate rustc_session;
 extern crate rustc_span;
+extern crate smallvec;
 extern crate thin_vec;
 
+mod canon;
 mod configs;
 mod explore;
 mod fmt;
@@ -194,6 +196,27 @@ fn main() {
                 println!("--- width {w}: status {:?} entries {:?} ---\n{}", out.status, out.entries, out.text);
             }
             println!("--- recorded detail ---\n{}", v["detail"].as_str().unwrap_or(""));
+        }
+        "canon" => {
+            // vh canon [k=v ...] < input : print the canonical token list
+            let mut cfg = fmt::Cfg::new(2015);
+            for kv in &args[2..] {
+                let (k, v) = kv.split_once('=').unwrap();
+                match k {
+                    "edition" => cfg.edition = v.parse().unwrap(),
+                    _ => cfg.kv.push((k.to_string(), v.to_string())),
+                }
+            }
+            let mut input = String::new();
+            std::io::Read::read_to_string(&mut std::io::stdin(), &mut input).unwrap();
+            fmt::install_panic_hook();
+            match canon::canon(&input, cfg.edition, &canon::Opts::from_cfg(&cfg)) {
+                Ok(c) => {
+                    println!("{}", c.tokens.join(" "));
+                    println!("use runs: {:?}", c.use_runs);
+                }
+                Err(e) => println!("ERROR {e}"),
+            }
         }
         "fmt" => {
             let w: usize = args[2].parse().unwrap();
